@@ -48,16 +48,33 @@ def contentAt (tree : ETree) (p : List String) : Bytes :=
   | some (.file b) => b
   | _ => []
 
-/-- the regular files below LICENSES/ as component lists (`licFilesOf` is their `relText`) -/
-def licPathsOf (tree : ETree) : List (List String) :=
-  match elookup tree "LICENSES" with
-  | some (.dir cs) => licWalkList ["LICENSES"] cs
-  | _ => []
+/-- what `open` finds at an entry: the bytes of a regular file, or of the one a symbolic link resolves to -/
+def ENode.bytes? : ENode → Option Bytes
+  | .file b => some b
+  | .symlink (.file b) => some b
+  | _ => none
 
-/-- the bytes of the LICENSES/ file that `_find_licenses` recorded under the relative path `path` -/
+/-- the entries of a directory, or of the one a symbolic link resolves to -/
+def ENode.entries? : ENode → Option ETree
+  | .dir cs => some cs
+  | .symlink (.dir cs) => some cs
+  | _ => none
+
+/-- the bytes `open` reads at `p`, symbolic links followed on the way and at the end (the licence
+    texts below LICENSES/ are the only paths the tool opens that may lead through links) -/
+def linkedContentAt : ETree → List String → Bytes
+  | _, [] => []
+  | cs, [n] => ((elookup cs n).bind ENode.bytes?).getD []
+  | cs, d :: ds =>
+    match (elookup cs d).bind ENode.entries? with
+    | some sub => linkedContentAt sub ds
+    | none => []
+
+/-- the bytes of the LICENSES/ file that `_find_licenses` recorded under the relative path `path`
+    (`licPathsOf`, Model/LintE2E: `licFilesOf` is their `relText`) -/
 def licContent (tree : ETree) (path : Text) : Bytes :=
   match (licPathsOf tree).find? (fun p => relText p == path) with
-  | some p => contentAt tree p
+  | some p => linkedContentAt tree p
   | none => []
 
 -- ---------------------------------------------------------------- reuse spdx
@@ -191,7 +208,7 @@ def resolveFrom (tree : ETree) : List String → List String → Resolved
     else
       match nodeAt tree (cur ++ [s]) with
       | none => .missing
-      | some .symlink => .missing
+      | some (.symlink _) => .missing
       | some _ => resolveFrom tree (cur ++ [s]) rest
 
 /-- `Path(arg).resolve()`: relative arguments are resolved against the working directory -/
